@@ -54,6 +54,9 @@ static unsigned long *verif_op_hist = 0;
 static const struct { const char *name; int op; } c04_backops[] = { C04_BACKOPS {0, 0} };
 
 #define C04_SENTINEL 0x7e57
+#ifndef C04_STACK_SLACK
+#define C04_STACK_SLACK 5	/* `size - 5` of reset_interpreter (src/stack.c); the plugin passes the value found in the source */
+#endif
 static int c04_stack = 0;
 static const char *c04_conf = 0, *c04_scratch = "/tmp";
 static int c04_hc = 0;	/* the master's error handler completes a catch: error_state at the driver level is not compared */
@@ -199,9 +202,9 @@ static int c04_cmd (char *line)
   if (!strcmp (tok[0], "stack") && n == 2)
     {
       int v = atoi (tok[1]);
-      if (v >= 6 && v <= CONFIG_INT (__EVALUATOR_STACK_SIZE__))
+      if (v >= C04_STACK_SLACK + 1 && v <= CONFIG_INT (__EVALUATOR_STACK_SIZE__))
         {
-          end_of_stack = start_of_stack + v - 5;
+          end_of_stack = start_of_stack + v - C04_STACK_SLACK;
           c04_stack = v;
         }
       else
